@@ -41,7 +41,7 @@ package templ
 //@   ensures implies(result == nil, failedDuring == old(failedDuring))
 // registry monotonicity (C12) and the children slot (C13): a component may
 // consume (clear) the slot it was given, never install another one.
-//@   ensures slot() == nil || slot() == old(slot())
+//@   ensures {C13} slot() == nil || slot() == old(slot())
 
 //@ func (ComponentFunc) Render [C10]
 //@   inline
@@ -54,6 +54,8 @@ package templ
 //@   trusted
 
 //@ func EscapeString [C01, C10, C03]
+//@   inline
+//@ func JoinStringErrs [C10]
 //@   inline
 
 // ---------------------------------------------------------------------------
@@ -73,8 +75,8 @@ package templ
 
 //@ func writeStrings [C10, C01]
 //@   modifies doc(w), failedDuring
-//@   ensures isPrefix(old(out(w)), out(w))
-//@   ensures implies(err == nil, out(w) == cat(old(out(w)), flat(ss, len(ss))) && failedDuring == old(failedDuring))
+//@   ensures isPrefix(old(sink(w)), sink(w))
+//@   ensures implies(err == nil, doc(w) == cat(old(doc(w)), flat(ss, len(ss))) && isPrefix(old(doc(w)), doc(w)) && failedDuring == old(failedDuring))
 //@   ensures implies(err != nil, failedDuring)
 //@   ensures implies(old(failedDuring), failedDuring)
 //@   loop 1 invariant out(w) == cat(old(out(w)), flat(ss, iter)) && failedDuring == old(failedDuring)
@@ -82,7 +84,7 @@ package templ
 //@ func Join$1 [C10]
 //@   implements Component.Render
 //@   loop 1 invariant isPrefix(old(doc(w)), doc(w)) && failedDuring == old(failedDuring)
-//@   loop 1 invariant slot() == nil || slot() == old(slot())
+//@   loop 1 invariant {C13} slot() == nil || slot() == old(slot())
 
 //@ func Raw$1 [C10]
 //@   implements Component.Render
@@ -96,8 +98,8 @@ package templ
 
 //@ func writeScriptHeader [C10, C01]
 //@   modifies doc(w), failedDuring
-//@   ensures isPrefix(old(out(w)), out(w))
-//@   ensures implies(err == nil, failedDuring == old(failedDuring))
+//@   ensures isPrefix(old(sink(w)), sink(w))
+//@   ensures implies(err == nil, isPrefix(old(doc(w)), doc(w)) && failedDuring == old(failedDuring))
 //@   ensures implies(err != nil, failedDuring)
 //@   ensures implies(old(failedDuring), failedDuring)
 
